@@ -92,8 +92,23 @@ def driver_prop(rec):
     return "C12"
 
 
-def run_engine(chk, prop, files, select=None):
+def model_check(chk, cfgs, must_fail=()):
+    """TLC on the goroutine-level model Engine.tla (instance MCEngine): the design refines the
+    observer under every interleaving; must_fail lists defective variants TLC has to reject."""
+    for cfg in cfgs:
+        r = vlib.run_tlc("net/MCEngine", cfg=cfg, workers=12, timeout=1500)
+        vlib.tlc_must_pass(r, cfg)
+        chk.add_tlc(cfg, r)
+    for cfg in must_fail:
+        r = vlib.run_tlc("net/MCEngine", cfg=cfg, workers=8, timeout=900)
+        if r.ok or not r.violation:
+            raise vlib.MachineryError("defective design %s was not rejected by TLC" % cfg)
+        chk.extra["defective_variant_rejected"] = cfg
+
+
+def run_engine(chk, prop, files, select=None, mc=(), mc_thorough=(), must_fail=()):
     thorough = chk.tier == "thorough"
+    model_check(chk, list(mc) + (list(mc_thorough) if thorough else []), must_fail if thorough else ())
     chk.assumptions = [
         "the test protocol vproto (harness/vproto) has the three shapes of state map the engine has to handle (streaming with kept agency, request/response with pipelining, server streaming)",
         "hooks log at the linearization points of DESIGN Appendix A; one recorder mutex orders the events of both endpoints",
